@@ -10,6 +10,11 @@
 #include <cppcms/json.h>
 #include "session_memory_storage.h"
 #include "session_posix_file_storage.h"
+#include "session_tcp_storage.h"
+#include "tcp_cache_server.h"
+#include "cache_storage.h"
+#include <sys/socket.h>
+#include <netinet/in.h>
 #include <fcntl.h>
 #include <stdarg.h>
 #include <unistd.h>
@@ -302,13 +307,26 @@ static void attack(world &w, rng &r)
 	}
 }
 
+static int free_port()
+{
+	static rng pr((uint64_t)getpid() * 7919u + 13);
+	for (int i = 0; i < 200; i++) {
+		int p = 10000 + (int)pr.below(20000);
+		int s = socket(AF_INET, SOCK_STREAM, 0);
+		sockaddr_in a; memset(&a, 0, sizeof a); a.sin_family = AF_INET; a.sin_port = htons(p); a.sin_addr.s_addr = htonl(INADDR_LOOPBACK);
+		int ok = bind(s, (sockaddr *)&a, sizeof a);
+		syscall(SYS_close, s);
+		if (ok == 0) return p;
+	}
+	return 0;
+}
 static void run_world(rng &r, long long idx, long long nreq)
 {
 	world w;
 	static char const *locs[] = { "client", "server", "both" };
 	static char const *hows[] = { "fixed", "renew", "browser" };
 	w.location = locs[r.below(3)];
-	w.storage = w.location == "client" ? "none" : (r.chance(1, 2) ? "memory" : "files");
+	w.storage = w.location == "client" ? "none" : (char const *[]){ "memory", "files", "network" }[r.below(3)];
 	w.def_how = r.below(3); w.def_age = (int[]){ 20, 100, 1000 }[r.below(3)];
 	w.limit = 200; w.prefix = "sx";
 	cppcms::json::value cfg;
@@ -322,11 +340,20 @@ static void run_world(rng &r, long long idx, long long nreq)
 		else { cfg["session"]["client"]["hmac"] = "sha256"; cfg["session"]["client"]["hmac_key"] = "00112233445566778899aabbccddeeff"; cfg["session"]["client"]["cbc"] = "aes128"; cfg["session"]["client"]["cbc_key"] = "ffeeddccbbaa99887766554433221100"; }
 	}
 	std::string dir;
+	std::unique_ptr<cppcms::impl::tcp_cache_service> netsrv;
 	w.pool.reset(new cppcms::session_pool(cfg));
 	if (w.location != "client") {
 		cfg["session"]["server"]["storage"] = w.storage;
 		std::unique_ptr<sess::session_storage_factory> f;
 		if (w.storage == "memory") f.reset(new sess::session_memory_storage_factory());
+		else if (w.storage == "network") {
+			// a real tcp_cache_service on loopback keeps the sessions (memory storage behind it); the application side talks to it through tcp_factory
+			int port = free_port();
+			booster::shared_ptr<sess::session_storage_factory> behind(new sess::session_memory_storage_factory());
+			netsrv.reset(new cppcms::impl::tcp_cache_service(cppcms::impl::thread_cache_factory(0), behind, 1, "127.0.0.1", port));
+			std::vector<std::string> ips(1, "127.0.0.1"); std::vector<int> ports(1, port);
+			f.reset(new sess::tcp_factory(ips, ports));
+		}
 		else { dir = g_dir + "/w" + std::to_string(idx); f.reset(new sess::session_file_storage_factory(dir, 2, 1, false)); }
 		w.pool->storage(std::unique_ptr<sess::session_storage_factory>(new logging_factory(std::move(f))));
 	}
@@ -335,6 +362,8 @@ static void run_world(rng &r, long long idx, long long nreq)
 	int nb = r.range(1, 4);
 	for (int i = 0; i < nb; i++) { w.browsers.push_back(std::unique_ptr<browser>(new browser())); w.browsers[i]->id = i; }
 	O().count("worlds");
+	O().count("worlds_storage_" + w.storage);
+	O().count("worlds_location_" + w.location);
 	O().seen("worlds", mix(mix(fnv(w.location), fnv(w.storage)), (uint64_t)(w.def_how * 10 + nb) * 4096 + w.def_age));
 	int viol_before = O().viol_count;
 	for (long long i = 0; i < nreq && O().viol_count == viol_before; i++) {
@@ -353,6 +382,7 @@ static void run_world(rng &r, long long idx, long long nreq)
 	}
 	if (idx < 3 && w.trace.size() > 3) O().sample("{\"location\":\"" + w.location + "\",\"storage\":\"" + w.storage + "\",\"expire\":\"" + hows[w.def_how] + "\",\"first_requests\":[" + jstr(w.trace[0]) + "," + jstr(w.trace[1]) + "," + jstr(w.trace[2]) + "]}");
 	w.pool.reset();
+	if (netsrv) { netsrv->stop(); netsrv.reset(); }
 	if (!dir.empty()) { DIR *d = opendir(dir.c_str()); if (d) { while (dirent *e = readdir(d)) if (e->d_name[0] != '.') syscall(SYS_unlinkat, AT_FDCWD, (dir + "/" + e->d_name).c_str(), 0); closedir(d); } rmdir(dir.c_str()); }
 }
 
